@@ -21,10 +21,15 @@ type c07World struct {
 	thorough bool
 	c        *ev.Ctx
 	steps    int
+	pre      []bfs.Op // pre-history applied to the freshly built server (roots "mode:init|op arg;op arg")
 	fam      string // roots "mode:@family": one key family's key + expired / current / future certificates, small alphabet
 }
 
 func newC07World(c *ev.Ctx, root string) bfs.World {
+	pre := ""
+	if i := strings.Index(root, "|"); i >= 0 {
+		root, pre = root[:i], root[i+1:]
+	}
 	noUp, init := parseRoot(root)
 	fam := ""
 	if len(init) == 1 && strings.HasPrefix(init[0], "@") {
@@ -35,10 +40,27 @@ func newC07World(c *ev.Ctx, root string) bfs.World {
 	for _, n := range init {
 		x.intUA[n] = true
 	}
+	if pre != "" {
+		for _, o := range strings.Split(pre, ";") {
+			f := strings.Fields(o)
+			op := bfs.Op{Name: f[0]}
+			if len(f) > 1 {
+				op.Arg = f[1]
+			}
+			x.pre = append(x.pre, op)
+		}
+	}
 	return x
 }
 
-func (x *c07World) Init() []bfs.Finding { return nil }
+// Init applies the pre-history (judged like any other transition).
+func (x *c07World) Init() (fs []bfs.Finding) {
+	for _, op := range x.pre {
+		fs = append(fs, x.Apply(op)...)
+	}
+	x.steps = 0
+	return
+}
 func (x *c07World) Close() { x.w.Close() }
 
 func setKeys(m map[string]bool) string {
@@ -92,6 +114,9 @@ func (x *c07World) Enabled() []bfs.Op {
 	o("Remove", "K1", "c.cur", "c.forever", "h1", "c.lapsing")
 	ops = append(ops, bfs.Op{Name: "RemoveAll"})
 	o("URemove", "K1", "K2", "c.cur")
+	if len(x.pre) > 0 && !x.w.ua.Ring.Locked { // (used-server roots only: it doubles the state space)
+		o("UAdd", "K3")
+	} // an unrelated key enters behind the shim's back (after a direct removal the NUMBER of identities is the same again)
 	if x.w.ua.Ring.Locked {
 		ops = append(ops, bfs.Op{Name: "UUnlock"})
 	} else {
@@ -159,6 +184,9 @@ func (x *c07World) Apply(op bfs.Op) (fs []bfs.Finding) {
 		if r.err == nil {
 			delete(x.intUA, op.Arg)
 		}
+		return
+	case "UAdd":
+		x.intUA[op.Arg] = true
 		return
 	case "ULock", "UUnlock", "Tick1m", "Tick1h":
 		return
@@ -388,13 +416,18 @@ func why(n string, now interface{ Unix() int64 }) string {
 
 func checkC07(c *ev.Ctx) {
 	setupFixtures()
-	c.Rule("E1 BFS over histories of the real shimagent.Server with a virtual clock: Add(13 identities incl. past/current/future/lapsing/edge/zero/forever/2^63/inverted windows), AddHardCert(5), Remove(5), RemoveAll, List, Signers, Sign(8), direct removals and lock/unlock on the underlying agent, clock ticks (+1min x2, +1h x1); roots = both upstream modes x 6 initial contents (incl. two where, once a key is removed, everything the underlying agent reports is out of window); plus both modes x 6 key families {DSA, sk-ed25519 security key, RSA, P-384, P-521, Ed25519; P-256 is K2 of the main roots} each with its key and an expired / current / not-yet-valid certificate in the underlying agent (alphabet List, Signers, Sign x4, Add expired, direct key removal, +1h); oracle against the intended contents. non-trivial = listing/signing transition that purged or orphan-dropped something; distinct by (operation, intended sets, clock)")
+	c.Rule("E1 BFS over histories of the real shimagent.Server with a virtual clock: Add(13 identities incl. past/current/future/lapsing/edge/zero/forever/2^63/inverted windows), AddHardCert(5), Remove(5), RemoveAll, List, Signers, Sign(8), direct removals and lock/unlock on the underlying agent, clock ticks (+1min x2, +1h x1); roots = both upstream modes x 6 initial contents, plus 2 used servers per mode (hardware certificates in memory and a listing already served), with an unrelated key entering behind the shim's back in their alphabet, (incl. two where, once a key is removed, everything the underlying agent reports is out of window); plus both modes x 6 key families {DSA, sk-ed25519 security key, RSA, P-384, P-521, Ed25519; P-256 is K2 of the main roots} each with its key and an expired / current / not-yet-valid certificate in the underlying agent (alphabet List, Signers, Sign x4, Add expired, direct key removal, +1h); oracle against the intended contents. non-trivial = listing/signing transition that purged or orphan-dropped something; distinct by (operation, intended sets, clock)")
 	c.Assume("certificate validity reference: va <= now <= vb after clamping to 2^63-1", "mem certificates whose key is held only inside an out-of-window certificate are don't-care for one listing (either outcome accepted)")
 	var roots []string
 	for _, mode := range []string{"up", "noup"} {
 		for _, init := range []string{"", "K1,c.cur,c.past", "K1,K2,c.lapsing,c2.past", "c.past,K1,c.zero,c.cur,c2.past,K2,c.va63", "K2,c.past", "K1,c2.lapsing"} {
 			roots = append(roots, mode+":"+init)
 		}
+	}
+	// used servers: hardware certificates in memory and a listing already served (what the server remembers of that
+	// listing must not decide what the next one checks)
+	for _, mode := range []string{"up", "noup"} {
+		roots = append(roots, mode+":K1,K2|AddHardCert h1;List", mode+":K1|AddHardCert h1x;Sign K1")
 	}
 	// every key family (certificate algorithm names differ): key + expired / current / future certificate in the
 	// underlying agent from the start
